@@ -408,6 +408,13 @@ class List(list, base.Symbolic, pg_typing.CustomTyping):
       should_insert = True
       value = value.value
 
+    # Normalize a negative index, so the child is addressed by its position.
+    if index < 0:
+      if should_insert:
+        index = max(0, index + len(self))
+      elif index >= -len(self):
+        index += len(self)
+
     old_value = pg_typing.MISSING_VALUE
     # Replace an existing value.
     if index < len(self) and not should_insert:
@@ -420,6 +427,8 @@ class List(list, base.Symbolic, pg_typing.CustomTyping):
     if index < len(self):
       if should_insert:
         list.insert(self, index, new_value)
+        # The items after the insertion point have moved.
+        self._update_children_paths(self.sym_path, self.sym_path)
       else:
         list.__setitem__(self, index, new_value)
         # Detach old value from object tree.
@@ -596,6 +605,10 @@ class List(list, base.Symbolic, pg_typing.CustomTyping):
               self.sym_path + i, self,
               self._value_spec.element if self._value_spec else None,
               old_value, pg_typing.MISSING_VALUE))
+
+    # The items after the deleted ones have moved.
+    if updates:
+      self._update_children_paths(self.sym_path, self.sym_path)
 
     if flags.is_change_notification_enabled() and updates:
       self._notify_field_updates(updates)
